@@ -91,11 +91,16 @@ Expiry ==
 
 \* 3. link loading: <step>.????????.link, filed under the first signature whose
 \*    id prefix equals the file-name part; an unparsable file aborts
+\*    (an id "k~" is one that only LOOKS like k's: same first eight characters, different further on)
+HasPrefixOf(kid, fkey) == kid = fkey \/ kid = fkey \o "~"
+FirstWithPrefix(sigs, fkey) ==
+  LET I == {i \in DOMAIN sigs : HasPrefixOf(sigs[i].kid, fkey)}
+  IN sigs[CHOOSE i \in I : \A j \in I : i <= j].kid
 Candidates(dir, s) ==
-  {[kid |-> f.fkey, doc |-> f.doc] :
+  {[kid |-> FirstWithPrefix(Doc(f.doc).sigs, f.fkey), doc |-> f.doc] :
      f \in {g \in DirFiles(dir) :
               /\ g.step = s.name /\ Doc(g.doc).typ # "garbage"
-              /\ \E sg \in SR(Doc(g.doc).sigs) : sg.kid = g.fkey}}
+              /\ \E sg \in SR(Doc(g.doc).sigs) : HasPrefixOf(sg.kid, g.fkey)}}
 
 LoadLinks ==
   /\ Running("load")
